@@ -612,12 +612,12 @@ func VerifC28Pairs() {
 
 // C28 triples (thorough): direct transitivity over the kinds that do not need FromInt.
 //
-//symgo:harness prop=C28 tier=thorough tshards=16 ttimeout=1700 bounds=triples_of:boolean|small_int|SuInt64|SuStr,SuConcat,SuExcept_of_0..1_bytes|SuDate|SuTimestamp|object_with_0..1_members
+//symgo:harness prop=C28 tier=thorough tshards=16 ttimeout=1700 bounds=triples_of:boolean|small_int|SuInt64|SuStr,SuConcat,SuExcept_of_0..2_bytes|SuDate|SuTimestamp|object_with_0..1_members
 func VerifC28Triples() {
 	ks := []int{v28Bool, v28Smi, v28I64, v28Str, v28Concat, v28Except, v28Date, v28Ts, v28Obj}
-	a, _ := v28val("a", ks[rt.Pick("a.kind", len(ks))], 1)
-	b, _ := v28val("b", ks[rt.Pick("b.kind", len(ks))], 1)
-	c, _ := v28val("c", ks[rt.Pick("c.kind", len(ks))], 1)
+	a, _ := v28val("a", ks[rt.Pick("a.kind", len(ks))], 2)
+	b, _ := v28val("b", ks[rt.Pick("b.kind", len(ks))], 2)
+	c, _ := v28val("c", ks[rt.Pick("c.kind", len(ks))], 2)
 	cab := a.Compare(b)
 	if cab > 0 {
 		return
